@@ -219,6 +219,20 @@ def gen_cases(rng, tier, ctx):
             else:
                 ops.append(rnd_op(rng, True))
         cases.append({'kind': 'hist', 'src': 'rollmix', 'init': init, 'ops': ops})
+    # round 3, deterministic (seed C09-1's class): caches populated, constants rolled (the rolled leaf's cache is reset while
+    # its ancestors' stay), then the ROLLED leaf is edited before anything re-queries it, then ancestors are queried
+    cl2 = lambda d, r=1: L(['c', d, 1], r)
+    for init in (N([cl2('8'), N([cl2('12', 2), cl2('4')], 2)], 2), N([N([N([cl2('16')], 3)], 2)])):
+        leaves = [[0], [1, 0]] if len(init['c']) == 2 else [[0, 0, 0]]
+        for pre in ([], [0], leaves[-1]):
+            for lp in leaves:
+                for ed in ({'op': 'setwf', 'sel': lp, 'w': ['c', '3', 1]}, {'op': 'setwf', 'sel': lp, 'w': None},
+                           {'op': 'append', 'sel': lp, 't': cl2('5'), 'kw': False}, {'op': 'append', 'sel': lp, 't': cl2('5'), 'kw': True},
+                           {'op': 'setslice', 'sel': lp, 'start': None, 'stop': None, 'step': None, 'ts': [cl2('7')]},
+                           {'op': 'setrep', 'sel': lp, 'z': 5}, {'op': 'encaps', 'sel': lp}, {'op': 'reverse', 'sel': lp}):
+                    cases.append({'kind': 'hist', 'src': 'rolledit', 'init': init, 'ops': [
+                        {'op': 'qdur', 'sel': pre}, {'op': 'roll', 'sel': [], 'mq': 2, 'q': 1, 'sr': '1'}, ed,
+                        {'op': 'qdur', 'sel': lp[:-1]}, {'op': 'qdur', 'sel': []}]})
     cases.extend(gen_forest(rng, quick))
     cases.extend(gen_forest3(rng, quick))
     return cases
@@ -705,6 +719,10 @@ def apply_op(env, root, op):
     try:
         do()
         out = 'KDone'
+    except RecursionError:
+        # only on structures whose recorded parents form a cycle (left behind by a failed assignment of a held ancestor):
+        # the walk of _invalidate_duration never ends; the model runs out of fuel there
+        out = 'KRecursion'
     except (IndexError, TypeError, ValueError, RuntimeError, AttributeError, AssertionError) as e:
         out = KINDS.get(type(e).__name__)
         if out is None:
